@@ -517,15 +517,9 @@ pub fn check(case: &Case, job: &Job, rec: &Record) -> Vec<Violation> {
             } else {
                 match bits_of_output(rec) {
                     Some(got) if &got == bits => {
-                        // expansion count: one open per splice for every source file
-                        for (p, n) in &m.expansions {
-                            let abs = format!("{}/{}", PROJ, p);
-                            let opens = rec.events.iter().filter(|e| e.op == Op::Open && e.resolved == abs && e.ok).count();
-                            if opens != *n {
-                                v.push(Violation::new("expansion-count", format!("`{}` should be spliced {} time(s) but was opened {} time(s) | {}", p, n, opens, ctx)));
-                                break;
-                            }
-                        }
+                        // (how often a file is *opened* is an implementation
+                        // matter — a cache within one assembly is legitimate —
+                        // so the splice count is judged on the output bits only)
                     }
                     Some(got) => {
                         v.push(Violation::new("wrong-content", format!("output bits differ from the reference expansion\n expected {}\n got      {} | {}", crate::orch::truncate(bits, 400), crate::orch::truncate(&got, 400), ctx)));
